@@ -24,8 +24,10 @@ for i in ids:
         meta["caught"] = bool(caught)
         if caught:
             c, rest = caught[0]
-            m = re.search(r"\[%s\] ([a-z-]+): (.*)$" % c, rest)
-            meta["check_result"] = {"check": c, "rc": 1, "violation_kind": m.group(1) if m else "?", "violation": (m.group(2) if m else rest)[:300]}
+            ms = [x for x in re.finditer(r"\[%s\] ([a-z+-]+): " % c, rest) if x.group(1) != "labels"]
+            m = ms[-1] if ms else None
+            meta["check_result"] = {"check": c, "rc": 1, "violation_kind": m.group(1) if m else "?",
+                                    "violation": (rest[m.end():] if m else rest).strip()[:300]}
         else:
             meta["check_result"] = {"check": ",".join(c for c, _, _ in checks), "rc": 0}
     json.dump(meta, open(mp, "w"), indent=1)
